@@ -60,7 +60,7 @@ GEOMS = {
     "g1": (0.75, 6.0),
     "g2": (3.0, 1.5),
     "sym": None,             # symbolic scales in [1/8, 8], origin (0, 0)
-    "both": "both",          # symbolic scales AND symbolic origin (kernel-level grid formula only; non-linear)
+    "both": "both",          # symbolic scales in [1/8, 8] AND symbolic origin (non-linear encoding)
 }
 
 LISTED_MASKS = {
@@ -87,17 +87,17 @@ def listed_mask(name):
 BOUNDS = {
     "quick": "masks: every mask (>=1 unmasked pixel) of every shape with H,W <= 4 and H*W <= 9 at kernel level and H,W <= 3, H*W <= 6 at class/decorator level "
              "(one path per mask) plus the listed 3x3/3x5/4x4/5x5 masks (ring, full, diagonal, edge-touching, hole, corners); sub-size maps (concrete): uniform 1,2,3 "
-             "and per-pixel maps mixing {1,2,3}, {2,3} and all-ones; geometry: symbolic origin with concrete anisotropic scales (1.5,3.0)/(0.75,6.0)/(3.0,1.5), or symbolic "
-             "anisotropic scales in [1/8,8] with origin (0,0), or (2x2/2x3 only) both symbolic; sub-values and affine coefficients: symbolic reals; user function: uninterpreted f(y,x); "
+             "and per-pixel maps mixing {1,2,3}, {2,3} and all-ones; geometry (one configuration per enumerated case, cycled; both-symbolic on a listed subset incl. all masks of 3x3 kernels / 2x3 sampler / 3x2 decorator, single-pixel iterate): symbolic origin with concrete anisotropic scales "
+             "(1.5,3.0)/(0.75,6.0)/(3.0,1.5), or symbolic anisotropic scales in [1/8,8] with origin (0,0), or both symbolic (affine coefficients concrete there); sub-values and affine coefficients: symbolic reals; user function: uninterpreted f(y,x); "
              "decorator routes: Grid2D.from_mask / Grid2D.uniform / Grid2D(values=symbolic) / GridsDataset.uniform / GridsDataset.pixelization / Grid2DOverSampled; "
-             "iterate: schedules [2,3],[2,4],[3,2],[2,3,4] on listed masks with 1-2 unmasked pixels (sampler and decorator routes), fractional accuracy symbolic in (0,1], "
+             "iterate: schedules [2,3],[2,4],[3,2],[2,3,4],[2,2,3] on listed masks with 1-2 unmasked pixels (sampler and decorator routes), fractional accuracy symbolic in (0,1], "
              "absolute tolerance unset or symbolic >= 0",
     "thorough": "as quick with every mask of shapes H,W <= 4, H*W <= 12 (kernels) / H,W <= 3 (classes, decorator), uniform sub-size 4 and maps mixing {1,2,4}, "
                 "iterate schedules additionally [2,4,8],[2,3,4] (2 pixels),[4,2,3],[3,4],[2],[1,2] (masks with 1-2 unmasked pixels)",
 }
 OUTSIDE = [
     "shapes / masks beyond the listed bounds, sub-sizes above 4 (8 only inside the thorough iterate schedule)",
-    "pixel scales other than the listed concrete pairs when the origin is symbolic; origins other than (0,0) when the scales are symbolic (user-function checks)",
+    "pixel scales outside [1/8, 8]; each enumerated (shape, sub-size map, route) case is decided under one of the five geometry configurations, not under all of them",
     "OverSamplingUniform.from_radial_bins / from_adaptive_scheme / from_adapt (config driven sub-size choice) and the decorator's "
     "`over_sampling is None` branch, which reads sub-size lists from the workspace config",
     "float64 rounding (a non-dyadic 1/sub_size^2 such as 1/9 enters as the exact rational of its float64 value in both the code and the reference)",
@@ -395,7 +395,7 @@ def case_sampler(ctx, H, W, pattern, geom, mask_name=None):
     origin, scales = _geom_inputs(ctx, geom)
     ctx.set_case(mask=mask.tolist())
     inputs = {"mask": mask, "origin": origin, "scales": scales, "v": V.real_array("v", (_cap(H, W, pattern),)),
-              "affine": [V.real("a0"), V.real("a1"), V.real("a2")], "ftab": []}
+              "affine": [V.real("a0"), V.real("a1"), V.real("a2")] if geom != "both" else [0.5, 2.0, -1.5], "ftab": []}
     hx.run_body(ctx, body_sampler, inputs, {"H": H, "W": W, "pattern": pattern}, validate_every=16, tol=TOL)
 
 
@@ -614,10 +614,19 @@ def case_iterate(ctx, mask_name, steps, geom, rel_set, route="sampler"):
         terms = hx.eq_terms(actual[k], expected[k])
         terms = [t if not isinstance(t, (bool, np.bool_)) else z3.BoolVal(bool(t)) for t in terms]
         known = {"iterate-all-zero-early-exit": region} if region is not None else None
-        # stage 1: counterexamples whose decisions are all MARGIN away from their boundaries (replay in float64 is reliable)
-        if ctx.check(k, z3.Or(z3.And(*terms), z3.Not(z3.And(*mg))), known=known):
-            # stage 2: the full claim in exact real arithmetic, decision boundaries included
-            ctx.check(k + " (decision boundaries included)", terms, known=known)
+        # the full claim in exact real arithmetic (decision boundaries included)
+        n_before = len(ctx.stats.candidates)
+        if not ctx.check(k, terms, known=known):
+            # violated: prefer a counterexample whose decisions are all MARGIN away from their boundaries, because its float64
+            # replay is reliable (a model sitting exactly on `ratio == threshold` may flip under rounding).  The candidate just
+            # recorded is kept only if no robust one exists.
+            plain = [c for c in ctx.stats.candidates[n_before:] if c.known is None]
+            for c in plain:
+                ctx.stats.candidates.remove(c)
+            n_mid = len(ctx.stats.candidates)
+            ctx.check(k, z3.Or(z3.And(*terms), z3.Not(z3.And(*mg))), known=known)
+            if not [c for c in ctx.stats.candidates[n_mid:] if c.known is None]:
+                ctx.stats.candidates.extend(plain)
     hx.check_all(ctx, actual, expected, only={"length"})
     _validate_with(ctx, body_iterate, inputs, kw, actual, all_margins, every=4)
 
@@ -643,8 +652,9 @@ def cases(tier):
                 for i, p in enumerate(pats):
                     split = {"split": 3} if H * W >= 12 else ({"split": 2} if H * W >= 9 else None)
                     out.append(("case_kernels", {"H": H, "W": W, "pattern": p, "geom": GEOM_CYCLE[(i + H + W) % 4]}, split))
-    out.append(("case_kernels", {"H": 2, "W": 2, "pattern": "mA", "geom": "both"}))
-    out.append(("case_kernels", {"H": 2, "W": 3, "pattern": "u3", "geom": "both"}))
+    out.append(("case_kernels", {"H": 2, "W": 2, "pattern": "mA", "geom": "both"}, {"timeout_ms": 90000}))
+    out.append(("case_kernels", {"H": 2, "W": 3, "pattern": "u3", "geom": "both"}, {"timeout_ms": 90000}))
+    out.append(("case_kernels", {"H": 3, "W": 3, "pattern": "mA", "geom": "both"}, {"timeout_ms": 90000, "split": 2}))
     for i, mn in enumerate(["ring4", "full4", "diag4", "edge35", "hole5"]):
         for j, p in enumerate(["u2", "u3", "mA"] if quick else ["u1", "u2", "u3", "u4", "mA", "mB", "mC"]):
             out.append(("case_kernels", {"H": 0, "W": 0, "pattern": p, "geom": GEOM_CYCLE[(i + j) % 4], "mask_name": mn}))
@@ -663,12 +673,16 @@ def cases(tier):
         for j, p in enumerate(["u2", "mA"] if quick else ["u2", "u3", "mA", "mC"]):
             out.append(("case_sampler", {"H": 0, "W": 0, "pattern": p, "geom": GEOM_CYCLE[(i + j + 1) % 4], "mask_name": mn}))
             out.append(("case_decorator", {"H": 0, "W": 0, "pattern": p, "geom": GEOM_CYCLE[(i + j) % 4], "route": "from_mask", "mask_name": mn}))
-    out.append(("case_sampler", {"H": 2, "W": 2, "pattern": "mA", "geom": "both"}))
-    out.append(("case_decorator", {"H": 2, "W": 2, "pattern": "mB", "geom": "both", "route": "from_mask"}))
+    out.append(("case_sampler", {"H": 2, "W": 2, "pattern": "mA", "geom": "both"}, {"timeout_ms": 90000}))
+    out.append(("case_sampler", {"H": 2, "W": 3, "pattern": "u3", "geom": "both"}, {"timeout_ms": 90000, "split": 2}))
+    for (hh, ww, p, route) in [(2, 2, "mB", "from_mask"), (3, 2, "mA", "from_mask"), (2, 3, "u2", "oversampled"), (2, 2, "m2", "values"), (1, 3, "m1", "dataset")]:
+        out.append(("case_decorator", {"H": hh, "W": ww, "pattern": p, "geom": "both", "route": route}, {"timeout_ms": 90000}))
     # (4) iterative scheme
     it = [("one33", [2, 3], "g0", False, "sampler"), ("two23", [2, 3], "sym", False, "sampler"),
           ("one23", [2, 4], "g1", True, "sampler"), ("two13", [2, 4], "g2", False, "decorator"),
-          ("one23", [2, 3, 4], "g0", False, "sampler"), ("one33", [3, 2], "sym", True, "decorator")]
+          ("one23", [2, 3, 4], "g0", False, "sampler"), ("one33", [3, 2], "sym", True, "decorator"),
+          ("one23", [2, 4], "both", False, "decorator"), ("one33", [2, 3], "both", True, "sampler"),
+          ("two13", [2, 2, 3], "g1", False, "sampler")]
     if not quick:
         it += [("one33", [2, 4, 8], "g1", False, "sampler"), ("two13", [2, 3, 4], "g2", False, "sampler"),
                ("one23", [4, 2, 3], "sym", True, "decorator"), ("two23", [2, 4], "g1", True, "decorator"),
@@ -676,7 +690,7 @@ def cases(tier):
     for (mn, steps, geom, rel_set, route) in it:
         load = len(ref_pixels(listed_mask(mn))) * (len(steps) - 1)
         out.append(("case_iterate", {"mask_name": mn, "steps": steps, "geom": geom, "rel_set": rel_set, "route": route},
-                    {"timeout_ms": 60000, "split": min(4, load + 1) if load >= 2 else 0}))
+                    {"timeout_ms": 120000, "split": min(4, load + 1) if load >= 2 else 0}))
 
     def weight(c):
         kw = c[1]
